@@ -190,3 +190,6 @@ Definition judge (c : case) : verdict :=
 
 Definition explain (c : case) : list (N * N) * option (list (N * N)) :=
   (model_support c, model_submitted c).
+
+(* constructor used by the generated case terms (keeps Model.C12 out of the case files) *)
+Definition mk_grp (size : N) (ia dq : list N) : grp := {| g_size := size; g_ia := ia; g_dq := dq |}.
